@@ -342,6 +342,8 @@ func (o hop) String() string {
 		return fmt.Sprintf("Sub(s%d,%q,q%d)", o.sub+1, o.filter, o.qos)
 	case 'U':
 		return fmt.Sprintf("Unsub(s%d,%q)", o.sub+1, o.filter)
+	case 'A':
+		return fmt.Sprintf("Unsub(all,%q)", o.filter)
 	}
 	return fmt.Sprintf("Retain(%q,%q)", o.filter, o.payload)
 }
@@ -364,11 +366,22 @@ func histOps(filters []string, rnames []string, nsubs int) []hop {
 			ops = append(ops, hop{kind: 'U', sub: s, filter: f})
 		}
 	}
+	// Unsubscribe(filter, nil) removes every subscriber of the filter (the client role
+	// of the library unsubscribes that way)
+	if withRemoveAll {
+		for _, f := range filters {
+			ops = append(ops, hop{kind: 'A', sub: -1, filter: f})
+		}
+	}
 	for _, n := range rnames {
 		ops = append(ops, hop{kind: 'R', filter: n, payload: "P1"}, hop{kind: 'R', filter: n, payload: "P2"}, hop{kind: 'R', filter: n, payload: ""})
 	}
 	return ops
 }
+
+// withRemoveAll adds Unsubscribe(filter, nil) to the alphabet (its own search: the
+// other searches keep their alphabets and depths)
+var withRemoveAll bool
 
 var probeNames = allNames()
 
@@ -429,6 +442,19 @@ func historiesN(e *env, filters, rnames []string, depthAll, depthBFS, nsubs int)
 				}
 				delete(mod.subs, k)
 				delete(psubs, fmt.Sprintf("%d|%s", o.sub, pinned(o.filter)))
+			case 'A':
+				held := false
+				for s := range subsObj {
+					k := fmt.Sprintf("%d|%s", s, o.filter)
+					if _, ok := mod.subs[k]; ok {
+						held = true
+					}
+					delete(mod.subs, k)
+					delete(psubs, fmt.Sprintf("%d|%s", s, pinned(o.filter)))
+				}
+				if err := mt.Unsubscribe([]byte(o.filter), nil); held && err != nil {
+					return fmt.Sprintf("step %d %s with subscriptions held fails: %v", i+1, o, err), "", i + 1
+				}
 			case 'R':
 				err := mt.Retain(retainMsg(o.filter, o.payload))
 				if o.payload == "" {
@@ -598,6 +624,15 @@ func C06(c *core.Ctx) {
 	} else {
 		historiesN(e, []string{"a", "a/+"}, nil, 4, 6, 3)
 	}
+	// remove-all (Unsubscribe with a nil subscriber) next to ordinary subscribe/unsubscribe:
+	// the node survives when a longer filter hangs below it
+	withRemoveAll = true
+	if c.Thorough() {
+		historiesN(e, []string{"a", "a/b", "a/+"}, nil, 4, 6, 3)
+	} else {
+		historiesN(e, []string{"a", "a/b"}, nil, 4, 6, 2)
+	}
+	withRemoveAll = false
 	// rejected filters on a populated store: they share leading levels with held subscriptions
 	if c.Thorough() {
 		histories(e, []string{"a/b", "a/b/a", "a/#/b", "a/b+", "a/b/#/a"}, []string{"a/b"}, 3, 5)
